@@ -20,6 +20,7 @@ RULE = (
     "non-trivial = scenario in which some session received non-zero energy in >=2 periods"
 )
 ASSUMPTIONS = [
+    "end-of-run expectations are computed from a copy of the recorded matrix taken when the run ends; the analysis functions are read twice and must leave the recorded matrix unchanged (also on a one-station site)",
     "relative tolerance 1e-9 on float sums (<=12 periods)",
     "noise draws come from the owned numpy.random.normal seam with a fixed pattern per scenario (multiples of sigma)",
     "small scope: <=3 stations, <=3 sessions",
